@@ -3,8 +3,9 @@ CONSTANTS
   Rec = {1, 2, 3, 4, 5, 6, 7, 8, 9, 10, 11, 12, 13, 14, 15, 16, 17, 18, 19, 20, 21, 22, 23, 24}
   Thread = {1, 2, 3}
   Orig = {1, 2}
+  MaxNest = 2
   Deviations = {}
 SPECIFICATION TraceSpec
-INVARIANTS TypeOK RcExact ReleasedAtMostOnce ReleasedWhenUnreferenced CountExact NeverTouchedAfterRelease HeldWhileReferenced
+INVARIANTS TypeOK RcExact ReleasedAtMostOnce ReleasedWhenUnreferenced CountExact NeverTouchedAfterRelease HeldWhileReferenced InFlightOnce
 POSTCONDITION TraceAccepted
 CHECK_DEADLOCK FALSE
